@@ -1,8 +1,8 @@
 package main
 
 import (
-	"go/constant"
 	"go/ast"
+	"go/constant"
 	"go/token"
 	"go/types"
 	"strings"
@@ -914,7 +914,6 @@ func c06StageOrder(c *Check) {
 
 }
 
-
 // c06ResultsKept: what a check returns from one of its stage methods is a whole – verdict, reason, authentication
 // results (spf=…, dkim=… that DMARC evaluates later), header fields. The runner hands it to the merge as it is. A
 // result that is looked at and then let go on some path (`if res.Reject { return res }; return next()`) loses the
@@ -1074,7 +1073,6 @@ func c06ResultsKept(c *Check, rule string) {
 		c.Fail(rule, "stage-calls", token.NoPos, "undecided: fewer than five stage calls on check states in the pipeline package")
 	}
 }
-
 
 // c06ActionParsed: `fail_action reject` / `… quarantine` / `… ignore` (and the *_action directives of the checks that
 // use the same parser, e.g. authorize_sender) are turned into the two flags FailAction.Apply enforces. A verdict is
@@ -1290,7 +1288,6 @@ func c06ActionParsed(c *Check, rule string) {
 	}
 }
 
-
 // R9: the runner remembers which (check state, recipient) pairs were checked so that a check referenced in several
 // blocks sees a recipient once. The memory must not outlive a refusal: RCPT TO:<x> refused by a check leaves the
 // transaction open, the client may send the very same command again, and a pair still on record makes the runner
@@ -1299,10 +1296,39 @@ func c06ActionParsed(c *Check, rule string) {
 // deletion of that pair (or the store is made only where the flag is clear).
 func c06RcptMemory(c *Check) {
 	c.Rule("R9", "checkRcpt: a (check state, recipient) pair does not stay on record when the check refused the recipient – evaluated in the world `result.Reject` on every path from the store to the runner's return (a repeated RCPT command is checked again, not waved through)", 1)
-	r0 := c.need("R9", pipelineRel, "checkRunner", "checkRcpt")
-	if r0 == nil {
+	if c.need("R9", pipelineRel, "checkRunner", "checkRcpt") == nil {
 		return
 	}
+	// every runner of the check runner that records the pair and calls CheckRcpt: the recipient stage itself and the
+	// replay of earlier recipients to newly created states (checkStates) – the replay also shows the CURRENT recipient
+	// to the states that existed before
+	for _, fi0 := range funcsOfPkgs(c.P, pipelineRel) {
+		if fi0.Decl.Body == nil || fi0.Decl.Recv == nil || recvTypeName(fi0.Decl) != "checkRunner" {
+			continue
+		}
+		has := false
+		for _, call := range func() []*ast.CallExpr {
+			var o []*ast.CallExpr
+			ast.Inspect(fi0.Decl.Body, func(x ast.Node) bool {
+				if cl, ok := x.(*ast.CallExpr); ok {
+					o = append(o, cl)
+				}
+				return true
+			})
+			return o
+		}() {
+			if methodName(call) == "CheckRcpt" {
+				has = true
+			}
+		}
+		if !has {
+			continue
+		}
+		c06RcptMemoryIn(c, &RuleCtx{C: c, FI: fi0, F: c.P.FlowOfFunc(fi0), Info: fi0.Info()})
+	}
+}
+
+func c06RcptMemoryIn(c *Check, r0 *RuleCtx) {
 	info := r0.Info
 	isTable := func(e ast.Expr) bool {
 		// cr.checkedRcptsPerCheck[s]  (the per-state set)
@@ -1322,7 +1348,7 @@ func c06RcptMemory(c *Check) {
 		return inner
 	}
 	n := 0
-	msg := "undecided: no runner that records the recipient and calls CheckRcpt found in checkRcpt"
+	msg := "undecided: no runner that records the recipient and calls CheckRcpt found in " + refName(r0.FI.Obj)
 	ast.Inspect(r0.FI.Decl.Body, func(x ast.Node) bool {
 		fl, ok := x.(*ast.FuncLit)
 		if !ok {
@@ -1383,7 +1409,8 @@ func c06RcptMemory(c *Check) {
 		}
 		return false
 	})
-	c.Hold("R9", "checkRcpt:refusal-not-remembered", r0.FI.Decl.Pos(), msg == "" && n > 0, msg)
+	c.SawFunc(r0.FI.Name())
+	c.Hold("R9", refName(r0.FI.Obj)+":refusal-not-remembered", r0.FI.Decl.Pos(), msg == "" && n > 0, msg)
 }
 
 // R10: "each applicable check sees the body exactly once per message, including the same check referenced in several
